@@ -952,6 +952,25 @@ func c03Stream(c *fw.Ctx, data string, thorough bool) {
 				c.Do(func() any { return t }, func() *fw.Violation { return c03Explore(c, t, &tex, nil, 0, &m) })
 			}
 		}
+		// a byte order mark (whole or cut off) in front of the stream or of a later value is not JSON, under every chunking
+		for _, bom := range []string{"\xef\xbb\xbf", "\xef\xbb", "\xef", "\xfe\xff", "\xef\xbb\xbf\xef\xbb\xbf"} {
+			for _, at := range append([]int{0}, c03Model(prog, data).bounds...) {
+				if at > len(data) {
+					continue
+				}
+				d := data[:at] + bom + data[at:]
+				cc := &c03Case{Data: d, Prog: prog, Bound: 1}
+				cex := c03Model(prog, d)
+				var m int64
+				c.Do(func() any { return cc }, func() *fw.Violation { return c03Explore(c, cc, &cex, nil, 0, &m) })
+				ob := &c03Case{Data: d, Prog: prog, AllChunk: true}
+				sched := make([]int, len(d))
+				for i := range sched {
+					sched[i] = len(d) - i - 1
+				}
+				c.Do(func() any { return ob }, func() *fw.Violation { _, v := c03Run(c, ob, &cex, sched); return v })
+			}
+		}
 		// (iv) single-byte corruptions: replacement and insertion
 		for k := 0; k <= len(data); k++ {
 			for _, b := range c03Corrupt {
@@ -990,7 +1009,7 @@ func init() {
 		ID: "C03",
 		Rule: "value streams: all sequences of <= 3 values over {1, \"a\", [], [1,2], {\"a\":1}, null, true, -0.5e1, [3]} x separators {none where the grammar allows, blank, newline} x trailing newline, run with three programs (per-value output; a counter across values; every root kept in an array that END prints); " +
 			"for each stream: every chunking when it is short, otherwise every schedule with <= k deviating Read answers (1 byte, up to each value boundary, boundary+1, (0,nil), last bytes together with EOF) plus the all-one-byte schedule; every truncation point; a sticky read error at every position (alone and together with the last bytes); " +
-			"every single-byte replacement and insertion from 10 bytes at every position; plus fixed faulty streams; SEVERAL INPUTS: 5 first inputs x all later inputs of <= 2 values, both readers explored, every truncation point and a read error at every position (offset 0 included) of the later input, also as third of three inputs, " +
+			"every single-byte replacement and insertion from 10 bytes at every position; a byte order mark (whole, cut off, doubled, UTF-16) in front of the stream and of every later value; plus fixed faulty streams; SEVERAL INPUTS: 5 first inputs x all later inputs of <= 2 values, both readers explored, every truncation point and a read error at every position (offset 0 included) of the later input, also as third of three inputs, " +
 			"with the monitor also flagging any Read on a later input while output of the earlier inputs is outstanding; THE BINARY BEHIND A PIPE: 6 programs (newline-terminated output, printf without a newline, mixtures, 3000-byte fields) x 3 streams, each value written with one following byte and the next one held back until the value's output has arrived (generous 45 s limit, normal latency < 1 ms); LARGE VALUES: one value of 18 sizes around 512 B ... 300 kB (buffer thresholds) after 0 / 3 and before 1 / 5 / 64 / 5000 small records, delivered in 16 fixed Read sizes; oracle: an independent RFC 8259 stream scanner splits the bytes into complete values + clean/error/truncated, the model gives the output of the complete values, " +
 			"a fault must be a JSON error naming the file, and a monitor on the reader/writer pair flags any Read issued while a complete value plus one following byte is already handed out and that value's output is not yet written; states = choice points (Read calls) visited; transitions = Read answers given",
 		Plan: func(t fw.Tier) int { return len(c03Values)*16 + 1 + len(c03MultiFirst) + len(c03BigSizes) },
